@@ -414,7 +414,7 @@ type rendered struct {
 	// intact poison records of any kind (live, dead or foreign): nobody can decrypt them
 	anyRecords [][]byte
 	classes    []string
-	firstAt    int // offset of the first live record (-1 if none)
+	firstAt    int      // offset of the first live record (-1 if none)
 	liveAt     [][3]int // offset, length and form (1 = container) of every live record
 	rotated    bool
 }
@@ -755,6 +755,10 @@ func CheckColumn(c ColCase) (vs hx.Vs, nontrivial bool, classes []string) {
 	if overlapped {
 		classes = append(classes, "record-overlapped-by-envelope-shaped-bytes")
 	}
+	hashCut := cutByHashLikePrefix(r)
+	if hashCut {
+		classes = append(classes, "record-cut-by-hash-like-prefix")
+	}
 	for _, ch := range chains {
 		for _, reader := range [][]byte{alice, carol} {
 			name := ch.name + ":" + map[string]string{"alice": "reader-with-keys", "carol": "reader-without-keys"}[string(reader)]
@@ -796,6 +800,10 @@ func CheckColumn(c ColCase) (vs hx.Vs, nontrivial bool, classes []string) {
 			case expFire:
 				if ch.name == "masked-column" && overlapped && (cb.N < 1 || fcb.n < 1) {
 					addKnown(&vs, "missed:masked-column:record-overlapped-by-envelope-shaped-bytes", "masked column, value of %d bytes: envelope-shaped bytes in front of the poison record (offset %d) claim a length that reaches into it; the masking processor replaces them by the pattern and the record is never looked at: callback ran %d times", len(r.col), r.firstAt, cb.N)
+					continue
+				}
+				if ch.name == "search-column" && hashCut && (cb.N < 1 || fcb.n < 1) {
+					addKnown(&vs, "missed:search-column:record-cut-by-hash-like-prefix", "searchable deployment, value of %d bytes: it starts with 0x7f, the 33 bytes of a search hash end inside the poison record (offset %d) and envelope-shaped bytes follow; the HMAC processor takes the 33 bytes off before the detectors see the value, the record is cut in two and never recognised, the hash does not verify and the value is delivered as stored: callback ran %d times", len(r.col), r.firstAt, cb.N)
 					continue
 				}
 				if cb.N < 1 {
@@ -1017,6 +1025,14 @@ func TestReplay(t *testing.T) {
 				return hx.Vs{{Sig: "harness:decode", Msg: err.Error()}}
 			}
 			vs, _, _ := CheckSession(c)
+			return vs
+		},
+		"TestPoisonSessionsMySQL": func(raw json.RawMessage) hx.Vs {
+			var c MySessCase
+			if err := json.Unmarshal(raw, &c); err != nil {
+				return hx.Vs{{Sig: "harness:decode", Msg: err.Error()}}
+			}
+			vs, _, _ := CheckMySession(c)
 			return vs
 		},
 	})
